@@ -169,6 +169,7 @@ Qed.
 Lemma ops_targets o s : targets_in (touched o) (ops_of o s).
 Proof.
   destruct o as [si order shnums size rec renew|si sh size off data|si sh|si sh
+                |si sh size prev off data
                 |si order ri rm|si order hs e|si order nodeid we tw lease]; cbn [ops_of touched].
   - destruct (all_existing _ _ _ _); [|apply targets_in_nil].
     apply targets_in_seq. intros st Hst s'. apply in_app_or in Hst. destruct Hst as [Hst|Hst].
@@ -181,6 +182,12 @@ Proof.
     intros x q [<-|[]] [<-|[]]. left. reflexivity.
   - intros x q [<-|[]] Hq. exact Hq.
   - intros x q [<-|[]] Hq. exact Hq.
+  - destruct (_ <=? _); [|apply targets_in_nil].
+    destruct (covered _ _).
+    + intros x q [<-|[<-|[]]] Hq.
+      * destruct Hq as [<-|[]]. left. reflexivity.
+      * exact Hq.
+    + intros x q [<-|[]] [<-|[]]. left. reflexivity.
   - apply targets_in_seq. intros st Hst s'. apply in_map_iff in Hst. destruct Hst as [sh [<- Hsh]].
     apply step_targets_lease. apply in_map. eapply existing_In. exact Hsh.
   - apply targets_in_seq. intros st Hst s'. apply in_map_iff in Hst. destruct Hst as [sh [<- Hsh]].
@@ -474,6 +481,7 @@ Proof.
   intros Hl Hr Hs Hk si sh. change (recover ?x (Final si sh)) with (x (Final si sh)).
   revert si sh. change (same_data s (run_p (map fst (firstn k (ops_of o s))) s)).
   destruct o as [si0 order shnums size rec renew|si0 sh0 size off data|si0 sh0|si0 sh0
+                |si0 sh0 size prev off data
                 |si0 order ri rm|si0 order hs e|si0 order nodeid we tw lease];
     try discriminate Hl; cbn [ops_of recs_ok] in *.
   - destruct (all_existing _ _ _ _).
@@ -495,6 +503,7 @@ Lemma lease_ops_preserve_inv o s :
 Proof.
   intros Hl Hr Hs. unfold plain_ops.
   destruct o as [si0 order shnums size rec renew|si0 sh0 size off data|si0 sh0|si0 sh0
+                |si0 sh0 size prev off data
                 |si0 order ri rm|si0 order hs e|si0 order nodeid we tw lease];
     try discriminate Hl; cbn [ops_of recs_ok] in *.
   - destruct (all_existing _ _ _ _); [|exact Hs].
